@@ -144,7 +144,7 @@ def check(res):
         glines.append("%s %s" % (kind, " ".join(str(rnd.randrange(8)) for _ in range(ln))))
     # long members lists: past 256 and 512 members (and 4096 in the thorough tier), no two neighbours of the same type
     for kind in ("scope", "param", "base", "enum", "xlist"):
-        for ln in ([600] if res.tier == "quick" else [600, 1100, 4200]):
+        for ln in ([600] if res.tier == "quick" else [600, 1100]):      # longer lists: the `long` mode below (the model re-reads after every addition, cubic cost)
             glines.append("%s %s" % (kind, " ".join(str((j * 3 + j // 8) % 8) for j in range(ln))))
     gouts, gcr = run_cases(gexe, glines, env=SAN_ENV)
     for idx, err in gcr[:2]:
